@@ -19,16 +19,22 @@ def step (st : St) (c : Char) : St :=
     else { r := if st.buff = [] then st.r else st.r ++ [st.buff], opened := true, buff := ['%'] }
   else { st with buff := st.buff ++ [c] }
 
-/-- Code after the loop. `none` = the error "not closed token". -/
-def finish (st : St) : Option (List (List Char)) :=
-  if st.opened then none
-  else some (if st.buff = [] then st.r else st.r ++ [st.buff])
+/-- Code after the loop. `error buff` = the error "not closed token: <buff>". -/
+def finishE (st : St) : Except (List Char) (List (List Char)) :=
+  if st.opened then .error st.buff
+  else .ok (if st.buff = [] then st.r else st.r ++ [st.buff])
 
 def init : St := ⟨[], false, []⟩
 
-/-- `Chunker.Chunks`. -/
+/-- `Chunker.Chunks`, with the unclosed buffer as error payload. -/
+def chunksE (s : List Char) : Except (List Char) (List (List Char)) :=
+  if s = [] then .ok [[]] else finishE (s.foldl step init)
+
+/-- `Chunker.Chunks` with the error forgotten. -/
 def chunks (s : List Char) : Option (List (List Char)) :=
-  if s = [] then some [[]] else finish (s.foldl step init)
+  match chunksE s with
+  | .ok cs => some cs
+  | .error _ => none
 
 /-- `toExpr`: strips the surrounding delimiters; `none` = `("", false)`. -/
 def toExpr (e : List Char) : Option (List Char) :=
